@@ -14,7 +14,7 @@ import (
 func init() { Registry["C09"] = checkC09 }
 
 func checkC09(p *core.Prog, r *core.Report) {
-	r.Explanation = "Decides structural necessary conditions of exact log shipping: (R1) ReplicationBufferQueue.Pop returns success only when the item it hands out continues the cursor (fresh/recycled cursor: item.seq - cursor.seq == 1, or the first item, or an unset cursor; live cursor: item.seq == cursor.seq before advancing); every other path returns a non-nil error ('out of buf'), so a recycled item under a lagging cursor is never silently followed; (R2) handleInitSync answers an unknown position with ERR_NOT_FOUND unless it is exactly the manager's current position, and refuses ids with file index 0; (R3) the follower reacts to ERR_NOT_FOUND by zeroing its position and re-requesting a full transfer; (R4) Aof.PushLock publishes every record to the ring after the file write attempt on every path, taking the ring mutex before releasing the append mutex (file order = ring order); (R5) ReplicationClient.Process hands every decoded record to its three pipelines (replay, append, re-publish) exactly once each in that order, and every exit sends the nil terminator to all three; (R6) the full-transfer bound: with an empty ring the transfer stops one past the last persisted record (offset + 1), and sendFiles stops at the first record at or past the bound. (R7) the follower's receive ring is at least two buffers larger than each pipeline queue's capacity, so a record still queued is never overwritten. (R9) the ring accepts a resume position only after examining all 16 bytes of the follower's log id. NOT decided: ring overflow behaviour under slow followers, reconnect races, convergence of snapshots."
+	r.Explanation = "Decides structural necessary conditions of exact log shipping: (R1) ReplicationBufferQueue.Pop returns success only when the item it hands out continues the cursor (fresh/recycled cursor: item.seq - cursor.seq == 1, or the first item, or an unset cursor; live cursor: item.seq == cursor.seq before advancing); every other path returns a non-nil error ('out of buf'), so a recycled item under a lagging cursor is never silently followed; (R2) handleInitSync answers an unknown position with ERR_NOT_FOUND unless it is exactly the manager's current position, and refuses ids with file index 0; (R3) the follower reacts to ERR_NOT_FOUND by zeroing its position and re-requesting a full transfer; (R4) Aof.PushLock publishes every record to the ring after the file write attempt on every path, taking the ring mutex before releasing the append mutex (file order = ring order); (R5) ReplicationClient.Process hands every decoded record to its three pipelines (replay, append, re-publish) exactly once each in that order, and every exit sends the nil terminator to all three; (R6) the full-transfer bound: with an empty ring the transfer stops one past the last persisted record (offset + 1), and sendFiles stops at the first record at or past the bound. (R7) the follower's receive ring is at least two buffers larger than each pipeline queue's capacity, so a record still queued is never overwritten. (R9) the ring accepts a resume position only after examining all 16 bytes of the follower's log id. (R10) a cursor that does not get its position from the ring (full transfer from an empty ring, resume at exactly the current position) is positioned at ring.seq-1 before the answer is written, and (R1) Pop no longer waives continuity for an unpositioned cursor (a real defect was repaired). NOT decided: the rest of ring overflow behaviour under slow followers, reconnect races, convergence of snapshots."
 	r.Assumptions = []string{"Go type checker and go/ssa are correct for /repo"}
 	c09R1(p, r)
 	c09R2(p, r)
@@ -25,6 +25,7 @@ func checkC09(p *core.Prog, r *core.Report) {
 	c09R7(p, r)
 	c09R8(p, r)
 	c09R9(p, r)
+	c09R10(p, r)
 }
 
 func c09R1(p *core.Prog, r *core.Report) {
@@ -42,7 +43,7 @@ func c09R1(p *core.Prog, r *core.Report) {
 			if len(rets) != 1 || rets[0].S != "nil" {
 				return
 			}
-			fresh, cont := false, false
+			fresh, cont, waived := false, false, false
 			var cls []string
 			for h := range x.St.Hist {
 				if strings.Contains(h, ".seq") {
@@ -54,7 +55,9 @@ func c09R1(p *core.Prog, r *core.Report) {
 				case strings.HasSuffix(h, ".seq == 0") && !strings.Contains(h, "cursor.seq == 0"):
 					cont, fresh = true, true
 				case strings.Contains(h, "cursor.seq == 18446744073709551615"), strings.Contains(h, "18446744073709551615 == cursor.seq"):
-					cont, fresh = true, true
+					// "never positioned" is not continuity: a cursor that attaches to
+					// whatever the tail is skips everything recycled before its first Pop
+					fresh, waived = true, true
 				case strings.Contains(h, ".seq == ") && strings.Contains(h, "cursor.seq") && !strings.Contains(h, " - ") && !strings.HasSuffix(h, "== 0") && !strings.Contains(h, "18446744073709551615"):
 					cont = true
 				}
@@ -62,6 +65,8 @@ func c09R1(p *core.Prog, r *core.Report) {
 			key := "server.(*ReplicationBufferQueue).Pop: success{" + map[bool]string{true: "fresh cursor", false: "live cursor"}[fresh] + "}"
 			if cont {
 				r.Hold(rule, key, x.Pos(), "continuity established")
+			} else if waived {
+				r.Violate(rule, "server.(*ReplicationBufferQueue).Pop: success{unpositioned cursor}", x.Pos(), "Pop waives the continuity test for a cursor that was never positioned (seq = 2^64-1) and attaches it to the current tail: a follower that full-syncs from a leader whose ring is empty gets only what is still in the ring at its first Pop - everything recycled before that is in neither the file transfer nor the stream, and no error is raised", x.St.Trace)
 			} else {
 				r.Violate(rule, key, x.Pos(), "Pop hands out an item without establishing that it continues the cursor's sequence ("+stable(strings.Join(cls, "; "))+"): a recycled item under a lagging follower is followed silently and records are skipped", x.St.Trace)
 			}
@@ -100,6 +105,9 @@ func c09R2(p *core.Prog, r *core.Report) {
 						if strings.HasSuffix(h, "[4] == 0") || strings.HasSuffix(h, "[4] != 0") {
 							refusedZero = true
 						}
+					}
+					if !searchFailed {
+						return // the cursor is positioned on another branch (full transfer from an empty ring), not a resume
 					}
 					key := siteKey(p, x.Ins)
 					if searchFailed && same {
@@ -568,5 +576,74 @@ func c09R9(p *core.Prog, r *core.Report) {
 	}
 	if n == 0 {
 		r.Fail("C09/R9: Search has no successful return")
+	}
+}
+
+// c09R10: Pop accepts the tail only when it continues the cursor's sequence.
+// A full transfer that starts from an empty ring therefore has to position the
+// cursor at the ring's next sequence number together with the transfer bound:
+// both handleInitSync branches that leave the ring (empty ring on a full
+// transfer, exact current position on a resume) store cursor.seq :=
+// ring.seq - 1 before answering. Without it the first Pop either fails for
+// ever (used ring) or - with a waiver for unpositioned cursors - attaches to
+// whatever is left in the ring.
+func c09R10(p *core.Prog, r *core.Report) {
+	const rule = "C09/R10"
+	r.Rule(rule, "handleInitSync: a cursor that does not get its position from the ring (empty ring on a full transfer / resume at exactly the current position) is positioned at ring.seq-1 before the answer is written", 2)
+	fn := mustFunc(p, r, "server.(*ReplicationServer).handleInitSync")
+	if fn == nil {
+		return
+	}
+	n := 0
+	ex := core.NewExplorer(p, core.Hooks{
+		Track: func(x *core.X, a core.Atom) bool {
+			s := core.Plain(a.String())
+			return strings.HasPrefix(s, "Head(") || strings.HasPrefix(s, "Search(")
+		},
+		Instr: func(x *core.X) {
+			if !x.Top() {
+				return
+			}
+			if st, ok := x.Ins.(*ssa.Store); ok {
+				if k, ok := storeKey(st.Addr); ok && k == fk("server.ReplicationBufferQueueCursor", "seq") {
+					v := core.Plain(x.Canon(st.Val).S)
+					if strings.HasSuffix(v, ".bufferQueue.seq - 1)") {
+						x.Set("positioned", "1")
+					}
+				}
+				return
+			}
+			if !calleeIs(x.Ins, "ReplicationServer", "waitStarted") && !strings.Contains(eventLabel(x.Ins), "Write") {
+				return
+			}
+			branch := ""
+			for h := range x.St.Hist {
+				h = core.Plain(h)
+				if strings.HasPrefix(h, "Head(") && strings.HasSuffix(h, "== io.EOF") {
+					branch = "full transfer from an empty ring"
+				}
+				if strings.HasPrefix(h, "Search(") && strings.HasSuffix(h, "!= nil") {
+					branch = "resume at the current position"
+				}
+			}
+			if branch == "" || x.Get("done:"+branch) == "1" {
+				return
+			}
+			x.Set("done:"+branch, "1")
+			n++
+			key := "server.(*ReplicationServer).handleInitSync: " + branch
+			if x.Get("positioned") == "1" {
+				r.Hold(rule, key, x.Pos(), "cursor.seq := ring.seq - 1 before the answer")
+			} else {
+				r.Violate(rule, key, x.Pos(), "the answer is written with a cursor that was not positioned at the ring's next sequence number: its first Pop cannot establish continuity (it fails for ever on a ring that has been used, or attaches to whatever is left if unpositioned cursors are waived)", x.St.Trace)
+			}
+		},
+	})
+	ex.Run(fn, nil)
+	if ex.Imprecise != "" {
+		r.Fail("C09/R10: %s", ex.Imprecise)
+	}
+	if n == 0 {
+		r.Fail("C09/R10: neither branch found in handleInitSync")
 	}
 }
